@@ -757,7 +757,9 @@ class BasisSineDVR(BasisSet):
         return np.pi**2*np.arange(1,self.nbas+1)**2/self.L**2/2
 
     def copy(self, new_dof):
-        return self.__class__(new_dof, self.nbas, xi=self.xi, xf=self.xf)
+        # `self.xi` / `self.xf` are stored after the `endpoint` extension, so `endpoint` must not be forwarded
+        return self.__class__(new_dof, self.nbas, xi=self.xi, xf=self.xf,
+                              quadrature=self.quadrature, dvr=self.dvr)
 
 
 class BasisMultiElectron(BasisSet):
